@@ -164,6 +164,20 @@ func (c *Coord) RegisteredBranches(xid string) []BranchInfo {
 	return out
 }
 
+// ReportedFailed lists the branches of xid the client has reported as failed in phase one: a coordinator leaves
+// those out of phase two, and takes every other registered branch through it
+func (c *Coord) ReportedFailed(xid string) map[int64]bool {
+	out := map[int64]bool{}
+	c.mu.Lock()
+	defer c.mu.Unlock()
+	for _, l := range c.Log {
+		if b, ok := l.Msg.Body.(message.BranchReportRequest); ok && b.Xid == xid && b.Status == branch.BranchStatusPhaseoneFailed {
+			out[b.BranchId] = true
+		}
+	}
+	return out
+}
+
 // RollbackBranch sends a BranchRollbackRequest and waits for the response (or its absence).
 func (c *Coord) RollbackBranch(s *FakeSession, b BranchInfo, wait time.Duration) (branch.BranchStatus, bool, string) {
 	id := int32(800000 + Stamp()%100000)
